@@ -124,13 +124,13 @@ func VJP(in Instr, xs []*T, y, gy *T, rule BroadcastRule) []*T {
 	case "cosh":
 		return unary(func(x, _ float64) float64 { return math.Sinh(x) })
 	case "tanh":
-		return unary(func(_, y float64) float64 { return 1 - y*y })
+		return unary(func(x, _ float64) float64 { c := math.Cosh(x); return 1 / (c * c) }) // not 1 - y*y: that cancels for saturated arguments
 	case "relu":
 		return unary(func(x, _ float64) float64 { return subgrad(x, 0, 1) })
 	case "leakyrelu":
 		return unary(func(x, _ float64) float64 { return subgrad(x, in.F, 1) })
 	case "sigmoid":
-		return unary(func(_, y float64) float64 { return y * (1 - y) })
+		return unary(func(x, _ float64) float64 { e := math.Exp(-math.Abs(x)); return e / ((1 + e) * (1 + e)) }) // s(x)s(-x), free of cancellation
 	case "elmax", "elmin":
 		a, b := xs[0], xs[1]
 		ga, gb := Zeros(a.Shape), Zeros(b.Shape)
